@@ -1455,12 +1455,15 @@ class GroupBy:
         group_index = self._result_index[self._labels_argsort]
         if mask is not None:
             group_called = np.array([len(arr) > 0 for arr in array_splits[0]], dtype=bool)
+            # (without any group np.array_split still returns one, empty, piece)
+            group_called = group_called[: len(group_index)]
         else:
             group_called = group_counts > 0
         group_index = group_index[group_called]
 
-        if np.ndim(results_per_value[0][0]) == 0:
+        if n_called == 0 or np.ndim(results_per_value[0][0]) == 0:
             # safe to assume it's a scalar value function
+            # (func was never called when no selected row has a key: the result is empty)
             arrays = map(np.array, results_per_value)
             if transform:
                 self._unify_group_key_chunks(keep_chunked=False)
@@ -2122,11 +2125,17 @@ class GroupBy:
         if index_by_groups:
             # only available for rolling function in-line with Pandas
             func_name = func_name.replace("rolling_", "")
-            return self.apply(
+            result = self.apply(
                 values,
                 lambda s: pd.Series(s).rolling(**kwargs).agg(func_name),
                 mask=mask,
             )
+            if len(result) == 0:
+                # no selected row has a key, so the window function was never called and
+                # apply could not tell the layout: keep the (group label, row label) index
+                common_index = self._preprocess_arguments(values, mask)[-1]
+                result.index = self._build_group_sorted_index(common_index)[:0]
+            return result
 
         # Get the appropriate numba function
         func = getattr(numba_funcs, func_name)
